@@ -350,6 +350,72 @@ def run_paths(case, toy=None):
     return res
 
 
+# ---------------------------------------------------------------- E2 traverse sequences on "the same key" in several guises
+def gen_travseq(tier, seed):
+    seeds = dict(seeds_for(tier, seed))
+    paths = [[0], [HARD, 1], [HARD + 48, HARD, 0, 5]] if tier == "quick" else [[0], [1, HARD - 1], [HARD, 1], [HARD + 48, HARD, 0, 5], [HARD + 84, HARD + 1, HARD, 1, 7]]
+    cases = []
+    for sn in ("r16", "f64") if tier == "quick" else ("r16", "f64", "r32"):
+        for pth in paths:
+            for rev in (False, True):
+                cases.append({"sn": sn, "seed": seeds[sn].hex(), "path": pth, "reverse": rev})
+    return cases
+
+
+def run_travseq(case):
+    """One seed, one path, in ONE process: the key is built for every network with default versions, then with every
+    SLIP-132 version pair, then parsed from every private-version string; each guise traverses the same path and must give
+    the reference key with ITS OWN version bytes and network (a memo keyed on too little would hand back an earlier object)."""
+    from buidl.hd import HDPrivateKey
+
+    res = Res()
+    seed = bytes.fromhex(case["seed"])
+    path = case["path"]
+    s = R.format_path(path)
+    rroot = R.master(seed)
+    rnode = R.derive_priv(rroot, path) if rroot else None
+    if rnode is None:
+        res.skip("reference: invalid key on the path")
+        return res
+    guises = [("net", net, None) for net in NETWORKS]
+    guises += [("slip132", "mainnet" if cls == "main" else "testnet", letter) for letter, cls, _a, _b in R.SLIP132]
+    guises += [("parsed", "mainnet" if cls == "main" else "testnet", letter) for letter, cls, _a, _b in R.SLIP132]
+    if case["reverse"]:
+        guises = guises[::-1]
+    for step, (kind, net, letter) in enumerate(guises):
+        vc = {"engine": "travseq", "case": dict(case, upto=step + 1)}
+        if case.get("upto") and step >= case["upto"]:
+            break
+        vprv, vpub = R.default_versions(net)
+        if letter:
+            vprv, vpub = R.version_bytes(letter + "prv"), R.version_bytes(letter + "pub")
+        if kind == "parsed":
+            root = attempt(HDPrivateKey.parse, rroot.ser(vprv, True))
+        elif kind == "slip132":
+            root = attempt(HDPrivateKey.from_seed, seed, network=net, priv_version=vprv, pub_version=vpub)
+        else:
+            root = attempt(HDPrivateKey.from_seed, seed, network=net)
+        t = attempt(lambda: root.traverse(s))
+        ot = obs_priv(t)
+        res.transitions += 1
+        if isinstance(ot, Rejected):
+            res.violation(f"C08/travseq/{kind}/rejected", vc, repr(ot), "key at the path", f"traverse({s}) fails for guise {kind}/{net}/{letter}")
+            return res
+        want = {"k": rnode.k, "c": rnode.c, "xprv": rnode.ser(vprv, True)}
+        got = {"k": ot["k"], "c": ot["c"], "xprv": ot["xprv"]}
+        if kind != "parsed":  # a parsed private key does not carry a public version: xpub() is only asserted for built keys
+            want["xpub"], got["xpub"] = rnode.ser(vpub, False), ot["xpub"]
+        if kind == "net":
+            want["network"], got["network"] = net, getattr(t, "network", None)
+        if got != want:
+            d = [k for k in want if got.get(k) != want[k]][0]
+            res.violation(f"C08/travseq/{kind}/{d}", vc, {d: got.get(d)}, {d: want[d]}, f"after earlier traversals of the same path from other guises of the same key, traverse({s}) for guise {kind}/{net}/{letter} returns a key with the wrong {d}")
+            return res
+        res.ok("traverse in sequence == ref", nontrivial=(case["sn"], tuple(path), case["reverse"], step))
+    res.states += 1
+    return res
+
+
 # ---------------------------------------------------------------- E1 codec
 def synthetic_nodes(tier, seed):
     """[name, k, c(hex), depth, pfp(hex), num] with boundary values in every field."""
@@ -744,6 +810,16 @@ def engines(tier, seed):
             "thorough adds 6 depth-8 paths and depth 4..7 prefixes for 3 seeds in every notation. "
             "traverse(string) == fold of child() == reference on the private side; public traverse == reference / refused when a component is hardened. "
             "Non-trivial = one (root, path, string) traversal of depth >= 1",
+        ),
+        Engine(
+            "travseq",
+            gen_travseq,
+            run_travseq,
+            kind="E2",
+            chunk=1,
+            rule="secp256k1. histories in one process: for a seed and a path (3 quick / 5 thorough paths, forward and reverse order) the same key is built for all 4 networks, "
+            "with all 10 SLIP-132 version pairs and parsed from all 10 private-version strings, and each guise traverses the same path string in turn; every result must be the "
+            "reference key with its own version bytes / network (state shared between keys that look alike would show here)",
         ),
         Engine(
             "codec",
